@@ -7,11 +7,11 @@ from .. import harness as H
 from ..ref.rs274 import read, last_values
 from ..ref.printer import Printer
 
-LETTERS = ["X", "y", "E", "F", "Z", "i"]
+LETTERS = ["X", "y", "E", "F", "Z", "i", "W"]
 NUMS = ["", "5", "-5", "+5", "5.", ".5", "-.5", "05.50", "0"]
 SEPS = ["", " "]
 WORDS = [(l, s1, v) for l in LETTERS for s1 in SEPS for v in NUMS if not (v == "" and s1 == " ")]
-RULE = ("every sequence of up to N words over the letters {X y E F Z i} x number spellings {none, 5, -5, +5, 5., .5, "
+RULE = ("every sequence of up to N words over the letters {X y E F Z i W} x number spellings {none, 5, -5, +5, 5., .5, "
         "-.5, 05.50, 0} x {no space, space} between letter and number and between words (repeated letters "
         "included); the parser's letter/value pairs are compared with an independent character-level reading, and "
         "G1 / G92 / G28 / G2 commands with those words are run through the real gcode.queuing hook of a homed "
